@@ -100,6 +100,12 @@ def faults(quick: bool):
     out.append(("manifest:namespace-conflict", ("files", {"lib2/_package.yml": "namespace: Lib\n", "lib2/x.yml": "X: int\n"}, "imports:\n  - ../lib\n  - ../lib2\n")))
     out.append(("yaml:garbage-model", ("files", {"main/zz.yml": "]]]: [\n"})))
     out.append(("yaml:garbage-import", ("files", {"lib/zz.yml": "\tbad: : :\n"})))
+    # entries of a package directory that are listed as model files but cannot be read (a dangling symbolic link such as an editor's lock file or a link
+    # into a checkout that is not there, a link that points to itself): the package's contents cannot be determined, the run must fail and write nothing
+    for where, d in (("main", "main"), ("main-subdir", "main/sub"), ("import", "lib"), ("version", "v0")):
+        out.append(("unreadable:dangling-link@%s" % where, ("fsobj", d, "zz_dangling.yml", "../nowhere/units.yml")))
+        out.append(("unreadable:dangling-absolute-link@%s" % where, ("fsobj", d, ".#model.yaml", "/nonexistent/vendor/extra.yaml")))
+        out.append(("unreadable:link-to-itself@%s" % where, ("fsobj", d, "zz_loop.yml", "zz_loop.yml")))
     out.append(("override:bad-key", ("args", ["-c", "nokey=1"])))
     out.append(("override:bad-value", ("args", ["-c", "cpp.generateNDJson=maybe"])))
     for sec_key in ("python.outputDir", "json.outputDir", "matlab.outputDir", "cpp.sourcesOutputDir"):
@@ -182,6 +188,10 @@ def apply_fault(base, outcfg, fault):
     elif kind == "files_manifest_imports":
         s = open(man_path).read().replace("imports:\n  - ../lib\n", fault[1])
         open(man_path, "w").write(s)
+    elif kind == "fsobj":
+        _, d, name, target = fault
+        os.makedirs(os.path.join(W, d), exist_ok=True)
+        os.symlink(target, os.path.join(W, d, name))
     elif kind == "args":
         args = fault[1]
     return args
